@@ -114,7 +114,11 @@ class RaiseMonitor:
             name = type(exc).__name__
             self.counts[name] += 1
             if len(self.events) < 10000:
-                self.events.append((name, str(exc)[:200], code.co_name))
+                try:
+                    msg = str(exc)[:200]
+                except Exception as e2:      # an exception whose own __str__ fails must not make the MONITOR raise
+                    msg = f"<str() failed: {type(e2).__name__}>"
+                self.events.append((name, msg, code.co_name))
 
     def window(self):
         ev = self.events
